@@ -417,6 +417,11 @@ def streams(ctx):
     sts.append(Stream("pc-generate-n", pcn, oracle=True, model_ops=pcn_model))
     if c18core is not None:
         sts += c18core.streams(ctx)
+    try:
+        from . import c18top
+        sts += c18top.streams(ctx)
+    except ImportError:
+        pass
     return sts
 
 
